@@ -1,10 +1,12 @@
 #!/bin/bash
-# MANIFEST.setup_cmd: build the Lean library (models, lemmas, property theorems) and every
-# per-property driver executable, offline, from files on disk only.
+# MANIFEST.setup_cmd: build the Lean library (models, lemmas, property theorems) and the driver
+# executable of every property claimed in MANIFEST.json, offline, from files on disk only.
 set -e
-cd "$(dirname "$0")/lean"
+cd "$(dirname "$0")"
+ids=$(python3 -c "import json;print(' '.join(c['property_id'] for c in json.load(open('MANIFEST.json'))['checks']))")
+cd lean
 targets="UxVerif"
-for f in Drivers/C*.lean; do
-  b=$(basename "$f" .lean); targets="$targets drv_$(echo "$b" | tr 'A-Z' 'a-z')"
+for id in $ids; do
+  targets="$targets UxVerif.Props.$id drv_$(echo "$id" | tr 'A-Z' 'a-z')"
 done
-lake build $targets
+flock .build.lock lake build $targets
